@@ -311,8 +311,11 @@ theorem block_uncomp_encode_valid (check : Nat) (data b : List UInt8) (avail : N
     `hck`     both sides compute the same Check, `lzma_check_size` bytes long (`stdCheck_agrees`: true for Model/Check.lean);
     `hpc`     the PAYLOAD CONTRACT: the raw decoder, given the chain as the Block Header stores it, maps
               `encPayload chain x ++ anything` to `x`, stops by itself and reports exactly `|encPayload chain x|` bytes
-              consumed (Props/C01.lean: `lzma1_roundtrip`, `lzma2_chunk_roundtrip` prove this for the LZMA models);
-    `huc`     the same for uncompressed LZMA2 chunks (only where the encoder can fall back to them).
+              consumed (discharged for the concrete LZMA2 / delta / BCJ models in Props/C01EndToEnd.lean:
+              `payload_contract_std_on` per input, `payload_contract_std`; inhabited for ALL inputs by the literal and run
+              parsers in Props/C01EndToEndAll.lean: `c02_hypotheses_discharged_literal`);
+    `huc`     the same for uncompressed LZMA2 chunks (only where the encoder can fall back to them;
+              `C01E2E.uncomp_contract_std`).
   A Check ID the build does not support and every other failing initialisation make the encoder model return an error,
   so "`= .ok out`" covers "valid chain and supported check". -/
 
